@@ -24,14 +24,14 @@ pub enum T {
     Verdict(Box<T>, Box<T>),
     /// declared type `idx` instantiated with these arguments
     Named(usize, Vec<T>),
-    /// type parameter `T` (only inside a generic declaration)
-    Param,
+    /// type parameter `T` / `U` (only inside a generic declaration)
+    Param(usize),
 }
 
 #[derive(Clone, Debug)]
 pub enum Decl {
-    Record { name: String, generic: bool, fields: Vec<(String, T)> },
-    Enum { name: String, generic: bool, variants: Vec<(String, Vec<T>)> },
+    Record { name: String, generic: usize, fields: Vec<(String, T)> },
+    Enum { name: String, generic: usize, variants: Vec<(String, Vec<T>)> },
 }
 
 impl Decl {
@@ -40,10 +40,14 @@ impl Decl {
             Decl::Record { name, .. } | Decl::Enum { name, .. } => name,
         }
     }
-    pub fn generic(&self) -> bool {
+    /// number of type parameters
+    pub fn nparams(&self) -> usize {
         match self {
             Decl::Record { generic, .. } | Decl::Enum { generic, .. } => *generic,
         }
+    }
+    pub fn generic(&self) -> bool {
+        self.nparams() > 0
     }
 }
 
@@ -73,18 +77,18 @@ impl T {
             T::Named(i, args) => {
                 let d = &env.decls[*i];
                 if d.generic() {
-                    format!("{}[{}]", d.name(), args[0].src(env))
+                    format!("{}[{}]", d.name(), args.iter().map(|a| a.src(env)).collect::<Vec<_>>().join(", "))
                 } else {
                     d.name().to_string()
                 }
             }
-            T::Param => "T".into(),
+            T::Param(i) => ["T", "U"][*i].into(),
         }
     }
 
-    pub fn subst(&self, arg: &T) -> T {
+    pub fn subst(&self, arg: &[T]) -> T {
         match self {
-            T::Param => arg.clone(),
+            T::Param(i) => arg.get(*i).cloned().unwrap_or(T::Param(*i)),
             T::List(t) => T::List(Box::new(t.subst(arg))),
             T::Opt(t) => T::Opt(Box::new(t.subst(arg))),
             T::Res(a, b) => T::Res(Box::new(a.subst(arg)), Box::new(b.subst(arg))),
@@ -102,17 +106,17 @@ impl T {
             T::Res(a, b) | T::Verdict(a, b) => a.inhabited(env) || b.inhabited(env),
             T::Named(i, args) => match &env.decls[*i] {
                 Decl::Record { fields, .. } => fields.iter().all(|(_, t)| {
-                    let t = if args.is_empty() { t.clone() } else { t.subst(&args[0]) };
+                    let t = t.subst(args);
                     t.inhabited(env)
                 }),
                 Decl::Enum { variants, .. } => variants.iter().any(|(_, ts)| {
                     ts.iter().all(|t| {
-                        let t = if args.is_empty() { t.clone() } else { t.subst(&args[0]) };
+                        let t = t.subst(args);
                         t.inhabited(env)
                     })
                 }),
             },
-            T::Param => true,
+            T::Param(_) => true,
             _ => true,
         }
     }
@@ -157,7 +161,7 @@ pub struct GenOpts {
     pub host: bool,
 }
 
-pub fn gen_type(p: &mut Prng, env: &Env, depth: u32, in_generic: bool, o: &GenOpts) -> T {
+pub fn gen_type(p: &mut Prng, env: &Env, depth: u32, in_generic: usize, o: &GenOpts) -> T {
     let r = p.below(100);
     if depth == 0 || r < 42 {
         // leaves
@@ -168,8 +172,8 @@ pub fn gen_type(p: &mut Prng, env: &Env, depth: u32, in_generic: bool, o: &GenOp
             T::Unit
         } else if r < 70 {
             T::Str
-        } else if r < 78 && in_generic {
-            T::Param
+        } else if r < 78 && in_generic > 0 {
+            T::Param(p.below(in_generic as u64) as usize)
         } else if o.host && p.chance(2, 3) {
             match p.below(8) {
                 0 => T::Host("Big"),
@@ -222,12 +226,12 @@ pub fn gen_type(p: &mut Prng, env: &Env, depth: u32, in_generic: bool, o: &GenOp
     }
 }
 
-fn named(p: &mut Prng, env: &Env, depth: u32, in_generic: bool, o: &GenOpts) -> T {
+fn named(p: &mut Prng, env: &Env, depth: u32, in_generic: usize, o: &GenOpts) -> T {
     let i = p.below(env.decls.len() as u64) as usize;
     if env.decls[i].generic() {
-        // instantiate by substitution with a small type
-        let arg = gen_type(p, env, depth.min(1), in_generic, o);
-        T::Named(i, vec![arg])
+        // instantiate by substitution with small types
+        let args = (0..env.decls[i].nparams()).map(|_| gen_type(p, env, depth.min(1), in_generic, o)).collect();
+        T::Named(i, args)
     } else {
         T::Named(i, vec![])
     }
@@ -238,7 +242,11 @@ const FIELD_NAMES: &[&str] = &["a", "b", "c", "d", "e", "f", "g", "h"];
 pub fn gen_env(p: &mut Prng, n_decls: usize, o: &GenOpts) -> Env {
     let mut env = Env { decls: vec![] };
     for i in 0..n_decls {
-        let generic = p.chance(1, 4);
+        let generic: usize = match p.below(16) {
+            0..=2 => 1,
+            3 => 2,
+            _ => 0,
+        };
         let is_record = p.chance(1, 2);
         let decl = if is_record {
             let n = 1 + p.below(5) as usize + if p.chance(1, 6) { 3 } else { 0 };
@@ -274,14 +282,14 @@ pub fn decl_src(env: &Env) -> String {
     for d in &env.decls {
         match d {
             Decl::Record { name, generic, fields } => {
-                s += &format!("record {name}{} {{\n", if *generic { "[T]" } else { "" });
+                s += &format!("record {name}{} {{\n", ["", "[T]", "[T, U]"][*generic]);
                 for (f, t) in fields {
                     s += &format!("    {f}: {},\n", t.src(env));
                 }
                 s += "}\n";
             }
             Decl::Enum { name, generic, variants } => {
-                s += &format!("enum {name}{} {{\n", if *generic { "[T]" } else { "" });
+                s += &format!("enum {name}{} {{\n", ["", "[T]", "[T, U]"][*generic]);
                 for (v, ts) in variants {
                     if ts.is_empty() {
                         s += &format!("    {v},\n");
